@@ -275,7 +275,7 @@ func runC18(x *verifkit.Ctx, c pCase) error {
 
 func TestVerifC18Repair(t *testing.T) {
 	verifkit.Run(t, verifkit.Spec[pCase]{
-		Property: "C18", Unit: "repair",
+		Property: "C18", Unit: "repair", CrashReplay: true,
 		Rule: "2..3 real property databases; a generated update log over 1..3 keys (apply of increasing revisions, the broadcast pruning older revisions, deletes) of " +
 			"which every replica receives a generated subset; generated pairwise exchanges (the sender's newest document or tombstone per key is offered through " +
 			"Repair) interleaved with the log, then all ordered pairs twice; oracles after every single Repair: the receiver's newest revision never decreases, a " +
